@@ -338,9 +338,9 @@ def run_shards(cmds, timeout, env=None, line_cb=None, stdin_data=None, retries=1
             if rc not in (0, 1):
                 reps = classify_sanitizer(err)
                 cur = ''
-                for line in out.splitlines():
-                    if line.startswith('C\t'):
-                        cur = line[2:]
+                for line in err.splitlines():
+                    if line.startswith('CASE\t'):
+                        cur = line[5:]
                 if reps:
                     for key, summ in reps[:3]:
                         res.violations.append((key, summ + (' case=' + cur if cur else ''), cmds_s + '\n' + err[-6000:]))
@@ -367,7 +367,9 @@ def load_known():
         return {'findings': [], 'fixed': []}
 
 
-def match_known(pid, key, known):
+def match_known(pid, key, detail, known):
+    """a witness (key, detail) is a known finding iff an entry of known_findings.json for this property matches its key
+    (exact, or regex with "regex": true) and, if the entry has one, its detail_regex (searched in the detail text)."""
     for k in known.get('findings', []):
         if k.get('property') != pid:
             continue
@@ -375,10 +377,14 @@ def match_known(pid, key, known):
         if pat is None:
             continue
         if k.get('regex'):
-            if re.fullmatch(pat, key):
-                return k
-        elif pat == key:
-            return k
+            if not re.fullmatch(pat, key):
+                continue
+        elif pat != key:
+            continue
+        dr = k.get('detail_regex')
+        if dr and not re.search(dr, detail or ''):
+            continue
+        return k
     return None
 
 
@@ -416,22 +422,22 @@ class Check:
 
     def finish(self, floor_nontrivial=2):
         os.makedirs(EVIDENCE, exist_ok=True)
-        # dedupe by key
+        # every witness is matched against the known findings individually; the rest is grouped by key
         bykey = {}
+        knownby = {}
         for key, detail, replay in self.violations:
-            bykey.setdefault(key, []).append((detail, replay))
-        new, knownhits = [], []
-        for key, items in bykey.items():
-            k = match_known(self.pid, key, self.known)
+            k = match_known(self.pid, key, detail, self.known)
             if k:
-                knownhits.append((key, k, items))
+                knownby.setdefault(k.get('id', k.get('key')), (key, k, []))[2].append((detail, replay))
             else:
-                new.append((key, items))
+                bykey.setdefault(key, []).append((detail, replay))
+        new = list(bykey.items())
+        knownhits = list(knownby.values())
         for key, k, items in knownhits:
             print('KNOWN-FINDING: property=%s %s [key=%s, %d witness(es) this run, e.g. %s]' % (
                 self.pid, k.get('what', ''), key, len(items), items[0][0][:160]))
         cov = self.coverage
-        cov['known_finding_keys_seen'] = sorted(k for k, _, _ in knownhits)
+        cov['known_findings_seen'] = sorted(str(k.get('id', key)) for key, k, _ in knownhits)
         ev = {
             'property_id': self.pid, 'tier': self.tier, 'seed': self.seed, 'level': self.level,
             'coverage': cov, 'assumptions': self.assumptions, 'wall_s': round(time.time() - self.t0, 2),
@@ -440,8 +446,9 @@ class Check:
         if self.inconclusive:
             cov['inconclusive'] = self.inconclusive[:10]
         rc = 0
+        rdir = os.path.join(REPLAY, self.pid)
+        shutil.rmtree(rdir, ignore_errors=True)
         if new:
-            rdir = os.path.join(REPLAY, self.pid)
             os.makedirs(rdir, exist_ok=True)
             cov['violation_keys'] = [k for k, _ in new][:50]
             for key, items in new[:20]:
